@@ -47,6 +47,10 @@ func inC19(f *eng.Fn) bool {
 
 func runC19(p *eng.Prog, r *eng.Report, tier string) {
 	c := &cx{p, r, tier}
+	c.r.Floor("C19.42", "reads of receiver fields a decoder stores into", decoderReadsOwnStores(c, "C19.42", func(f *eng.Fn) bool { return true }), 1)
+	// (no instance on today's tree: the encoders grow their lists with append;
+	// the rule is kept alive by the stored variant C19-r14-3, thorough tier)
+	c.r.Note("C19.43: %d indexed stores through a counter inside loops", indexedFillAdvances(c, "C19.43", func(f *eng.Fn) bool { return true }))
 	nf := 0
 	nBelief := 0
 	defer func() { c.r.Floor("C19.1", "unreachable-panic beliefs checked against a library callee", nBelief, 1) }()
